@@ -57,6 +57,8 @@ class Run:
     # ------------------------------------------------------------------ builds
     def build_harness(self):
         """Build the harness (and with it the goverter packages) from /repo's working tree with -tags verif."""
+        if self.vh:
+            return self.vh
         t = time.time()
         hdir = HARNESS
         if REPO != "/repo":
